@@ -483,7 +483,7 @@ impl Run {
                             }
                         }
                     });
-                    if let Err(TestError::Fail(_, v)) = res {
+                    if let Err(TestError::Fail(reason, v)) = res {
                         stop.store(true, Ordering::Relaxed);
                         // recompute the failure of the shrunk case
                         let out = match catch(|| check(&v)) {
@@ -494,7 +494,7 @@ impl Run {
                             Err(f) => f,
                             Ok(_) => Failure::new(
                                 "flaky",
-                                "shrunk case passed on re-execution (non-deterministic check?)",
+                                format!("shrunk case passed on re-execution (non-deterministic check?); failure during shrinking: {reason}"),
                             ),
                         };
                         let mut g = found.lock().unwrap();
